@@ -52,6 +52,7 @@ func runC08(p *Prog, r *Report) {
 	c08R10(p, r)
 	erasedErrorRequests(p, r, "C08-R12")
 	c08R13(p, r)
+	c08R14(p, r)
 	const r11 = "C08-R11"
 	r.Rule(r11, "lock balance in packages cred and ss2022: Lock/RLock only with the mutex not held by the function, Unlock/RUnlock only with the matching lock held, released at every exit (or by a deferred call) — the error returns of the credential operations included")
 	nb := lockBalance(p, r, r11, "cred", nil) + lockBalance(p, r, r11, "ss2022", nil)
@@ -1197,5 +1198,38 @@ func c08R13(p *Prog, r *Report) {
 			"LoadFromFile can report success here without "+strings.Join(missing, ", ")+" ever having been created (the unchanged-content short-cut matches an empty store file on the first load, because the cached content starts as the empty string): the server is registered with nil maps and the first AddCredential panics on a nil-map store while holding the mutex")
 	}
 	r.Check(len(mapFields) >= 2, rule, "cred.(*ManagedServer):credential-maps-found", p.posStr(fc.Body.Pos()), "the credential maps were found", fmt.Sprintf("only %d map fields of ManagedServer with element stores found", len(mapFields)))
+	r.Floor(rule, 2)
+}
+
+// c08R14: the store file is read inside the critical section that compares it with what the last
+// save wrote. saveToFile replaces the file (rename) and records its content under the mutex; a reload
+// that opened the file BEFORE taking the mutex can hold the previous inode: it then finds that content
+// different from the recorded one, parses it and replaces the cache and the live maps with the OLD set —
+// an acknowledged API change disappears from the running server, and the next save writes the old set
+// back over it.
+func c08R14(p *Prog, r *Report) {
+	const rule = "C08-R14"
+	r.Rule(rule, "the store is read under the lock that orders it against saves: in LoadFromFile (helpers expanded) every call that is given the store's path (a read of the file) executes with ManagedServer.mu write-held, the same critical section in which the content is compared with cachedContent and the maps are replaced")
+	fc := p.Inlined(p.Func("cred", "ManagedServer", "LoadFromFile"))
+	info := fc.Info()
+	recv := fc.RecvObj()
+	states := fc.LockStates(fmt.Sprintf("%p.mu", recv), LUnlocked)
+	n := 0
+	for _, cs := range fc.AllCalls() {
+		usesPath := false
+		for _, a := range cs.Call.Args {
+			root, path, okp := pathOf(info, fc.Resolve(a))
+			if okp && root == recv && path == ".path" {
+				usesPath = true
+			}
+		}
+		if !usesPath {
+			continue
+		}
+		n++
+		r.Check(states[cs.V] == LWrite, rule, "cred.(*ManagedServer).LoadFromFile:store-read-under-lock:"+roleOf(fc, cs.Call), cs.Pos(), "the file is opened with the mutex write-held",
+			"LoadFromFile opens the store file ("+exprStr(cs.Call)+") without holding the mutex: a save that renames a new file into place between this open and the Lock makes the reload parse the previous file, find it different from the content the save recorded, and replace the cache and the live maps with the old user set — the acknowledged change is lost from the running server and overwritten by the next save")
+	}
+	r.Check(n >= 1, rule, "cred.(*ManagedServer).LoadFromFile:reads-store", p.posStr(fc.Body.Pos()), "the read of the store file was found", "no call taking the store path found in LoadFromFile")
 	r.Floor(rule, 2)
 }
